@@ -3032,7 +3032,9 @@ func (pc *PeerConnection) generateMatchedSDP(
 		kind := NewRTPCodecType(media.MediaName.Media)
 		direction := getPeerDirection(media)
 		if kind == 0 || direction == RTPTransceiverDirectionUnknown {
-			// not usable, but still described: rejected in place
+			// not usable, but still described: rejected in place; a transceiver that
+			// carries this mid is described by this section and not once more
+			_, localTransceivers = findByMid(midValue, localTransceivers)
 			mediaSections = append(mediaSections, mediaSection{id: midValue, rejected: &media.MediaName})
 
 			continue
